@@ -59,6 +59,9 @@ def encode(x, base, inst=None):
     return ['?', repr(x)]
 
 
+_AUTO_DECOS = {}
+
+
 def decorate(f, form, po=(), kwo=(), order='po_first', s=None, extra=(), exc=()):
     """applies the real decorators; raises whatever they raise"""
     from sigtools import modifiers
@@ -90,8 +93,20 @@ def decorate(f, form, po=(), kwo=(), order='po_first', s=None, extra=(), exc=())
         return modifiers.posoargs(*extra, end=s)(f)
     if form == 'auto':
         if exc:
-            return modifiers.autokwoargs(exceptions=list(exc))(f)
+            # ONE decorator object per exceptions list, applied to every function that asks for it (a decorator is reusable)
+            key = tuple(exc)
+            if key not in _AUTO_DECOS:
+                _AUTO_DECOS[key] = modifiers.autokwoargs(exceptions=list(exc))
+            return _AUTO_DECOS[key](f)
         return modifiers.autokwoargs(f)
+    if form == 'names_then_annotate_ret':
+        # a return annotation recorded afterwards: the translator is prepared a second time, what it does must not change
+        g = f
+        if po:
+            g = modifiers.posoargs(*po)(g)
+        if kwo:
+            g = modifiers.kwoargs(*kwo)(g)
+        return modifiers.annotate(absig.AN[9])(g)
     raise ValueError(form)
 
 
@@ -205,6 +220,9 @@ def selections(base0, bound, rnd, nboth=8, nstart=6, nend=6, maxsel=2):
             yield dict(form='start_over_names', s=sname, po=selfpo + rnd.choice(one))
         else:
             yield dict(form='end_over_names', s=sname, kwo=rnd.choice(one))
+    for names in subs[:6]:
+        if names:
+            yield dict(form='names_then_annotate_ret', kwo=names)
     if bound:
         yield dict(form='end', s='self', extra=[])
 
@@ -217,7 +235,8 @@ def describe(e, case):
             'names_over_end': 'posoargs%r kwoargs%r over posoargs(end=%r)' % (tuple(e['po']), tuple(e['kwo']), e['s']),
             'start_over_names': 'kwoargs(start=%r) over posoargs%r kwoargs%r' % (e['s'], tuple(e['po']), tuple(e['kwo'])),
             'end_over_names': 'posoargs(end=%r) over posoargs%r kwoargs%r' % (e['s'], tuple(e['po']), tuple(e['kwo'])),
-            'end': 'posoargs(%s end=%r)' % (e['extra'], e['s']), 'auto': 'autokwoargs(exceptions=%r)' % (e['exc'],)}[e['form']]
+            'end': 'posoargs(%s end=%r)' % (e['extra'], e['s']), 'auto': 'autokwoargs(exceptions=%r)' % (e['exc'],),
+            'names_then_annotate_ret': 'annotate(<ret>) over posoargs%r kwoargs%r' % (tuple(e['po']), tuple(e['kwo']))}[e['form']]
     adv = next((absig.sig_str(a['ps']) for a in e['adv'] if a['tag'] == 'sig'), '-')
     text = '%s on %s def f%s -> %s, advertises %s; %d shapes called, %d accepted' % (
         what, 'method' if e['bound'] else 'function', absig.sig_str(e['base']), e['decorated'], adv, len(e['calls']), n_ok)
